@@ -66,7 +66,7 @@ static const convn_t convn_table[] = {
 #define NCONVN 9
 #define NMAX 6
 #define NZ0N 8
-#define NMATN 8
+#define NMATN 10
 
 static int n_entry(int tier) { return tier ? 7 : 3; }
 static int n_mats(int tier)
@@ -326,7 +326,7 @@ static void run_zi2(int tier, int f, int zi, vf_result *r)
 static void gen_matn(int n, int type, int k, double complex *m)
 {
     double sc = type == PT_Z ? 50.0 : type == PT_Y ? 0.02 : 1.0;
-    if (k >= 6) {
+    if (k == 6 || k == 7) {
 	/*
 	 * Exactly singular inputs for which most conversions are still
 	 * defined (a floating network has a singular Y, a shunt element a
@@ -372,6 +372,13 @@ static void gen_matn(int n, int type, int k, double complex *m)
 		v = 0;
 	    if (k == 3)					/* wide range */
 		v *= (i == 0 ? 1e-3 : 1.0) * (j == n - 1 ? 1e3 : 1.0);
+	    /* the whole matrix very small / very large in its unit (pF at
+	       kHz, milliohms, megohms): its determinant scales with the
+	       n-th power, its conditioning does not change */
+	    if (k == 8)
+		v *= 1e-7;
+	    if (k == 9)
+		v *= type == PT_S ? 30.0 : 1e5;
 	    m[i * n + j] = v * sc;
 	}
     }
@@ -429,8 +436,15 @@ static void run_convn(int f, int n, int zk, vf_result *r)
 		   a thousandth of the port's reference impedance */
 		double e = cabs(out[p] - ref[p]) /
 		    (cabs(ref[p]) + 1e-3 * cabs(z0[p]));
-		if (e > worst) worst = e;
-		if (!(e <= 1e-9)) {
+		/* an input impedance far above or below the reference
+		   impedance is the quotient of nearly cancelling quantities
+		   whatever the route: conditioning ~ |zin|/|z0| */
+		double ratio = cabs(ref[p]) / cabs(z0[p]);
+		if (ratio < 1.0)
+		    ratio = ratio > 0 ? 1.0 / ratio : 1.0;
+		double tol = 1e-9 + 1e3 * 2.2e-16 * ratio;
+		if (e * 1e-9 / tol > worst) worst = e * 1e-9 / tol;
+		if (!(e <= tol)) {
 		    snprintf(sig, sizeof(sig), "zin:%s", c->name);
 		    vf_fail(r, sig, "%s n=%d: port %d input impedance %g%+gj "
 			    "but terminated-network solve gives %g%+gj "
@@ -444,7 +458,11 @@ static void run_convn(int f, int n, int zk, vf_result *r)
 		double complex in2[2][2] = { { in[0], in[1] }, { in[2], in[3] } };
 		zi2_table[c->from].f(in2, o2, z0);
 		for (int p = 0; p < 2; ++p) {
-		    if (cabs(o2[p] - out[p]) > 1e-11 * cabs(out[p])) {
+		    double rat = cabs(out[p]) / cabs(z0[p]);
+		    if (rat < 1.0)
+			rat = rat > 0 ? 1.0 / rat : 1.0;
+		    if (cabs(o2[p] - out[p]) > (1e-11 + 1e3 * 2.2e-16 * rat) *
+			    cabs(out[p])) {
 			snprintf(sig, sizeof(sig), "n2agree:%s", c->name);
 			vf_fail(r, sig, "%s at n=2 gives %g%+gj, two-port "
 				"function gives %g%+gj (port %d)", c->name,
